@@ -479,6 +479,11 @@ type handle struct {
 	midCopy bool // copied in the middle of a transaction
 	via     string
 	lastRoot common.Hash // root of the last commit / the root it was opened on
+	// GetLogs annotates the logs it returns with the block number it is given; every
+	// handle uses its own number, so a log object shared between a copy and its
+	// original shows up as a foreign annotation.
+	blockNo   uint64
+	annotated int
 }
 
 type wrec struct {
@@ -694,6 +699,7 @@ type runner struct {
 	async    bool // snapshot generation runs in the background, stepped by the tape
 	genAlive bool // a generator may be waiting at the gate
 	genWork  int  // store accesses granted to generators
+	blockNos uint64
 	pace     int  // how often the tape lets the generator run
 
 	reverts, commits, undone int
@@ -724,6 +730,9 @@ func (r *runner) guard(what string, f func()) (ok bool) {
 		if p := recover(); p != nil {
 			msg := fmt.Sprint(p)
 			r.res.Violate(prop, "panic", "panic in state code during "+what+": "+scrub(firstLine(msg)), msg)
+			if r.node != nil {
+				r.node.stuck = true // the panic may have left locks held
+			}
 			ok = false
 		}
 	}()
@@ -770,6 +779,7 @@ func (r *runner) call(what string, f func()) bool {
 	if pv != nil {
 		msg := fmt.Sprint(pv)
 		r.res.Violate(prop, "panic", "panic in state code during "+what+": "+scrub(firstLine(msg)), msg)
+		r.node.stuck = true // the panic may have left locks of the tree held
 		return false
 	}
 	return ok
@@ -964,8 +974,18 @@ func (r *runner) check(h *handle, after string, only []int) bool {
 		if got := sdb.GetRefund(); got != m.refund {
 			fail("GetRefund", fmt.Sprintf("impl %d model %d", got, m.refund))
 		}
+		if h.blockNo == 0 {
+			r.blockNos++
+			h.blockNo = r.blockNos
+		}
 		logs := sdb.Logs()
 		sort.Slice(logs, func(i, j int) bool { return logs[i].Index < logs[j].Index })
+		for i, l := range logs {
+			if i < h.annotated && l.BlockHeight != h.blockNo {
+				fail("GetLogs", fmt.Sprintf("log %d carries block number %d, this state annotated it with %d", i, l.BlockHeight, h.blockNo))
+			}
+		}
+		h.annotated = len(logs)
 		if len(logs) != len(m.logs) {
 			fail("Logs", fmt.Sprintf("impl has %d logs, model %d", len(logs), len(m.logs)))
 		} else {
@@ -982,7 +1002,7 @@ func (r *runner) check(h *handle, after string, only []int) bool {
 				seen[ml.tx]++
 			}
 			for tx, cnt := range seen {
-				if got := len(sdb.GetLogs(txHash(tx), 1, bhash)); got != cnt {
+				if got := len(sdb.GetLogs(txHash(tx), h.blockNo, bhash)); got != cnt {
 					fail("GetLogs", fmt.Sprintf("tx %d impl %d logs model %d", tx, got, cnt))
 				}
 			}
@@ -1375,6 +1395,9 @@ func (engine) Run(t *testing.T, tape *core.Tape, opt core.Options) (res *core.Ru
 		synctest.Test(t, func(*testing.T) {
 			defer func() {
 				harness = recover()
+				if os.Getenv("VERIF_STATESIM_DUMP") != "" {
+					fmt.Fprintf(os.Stderr, "%s\nviolations: %v\n", strings.Join(res.TraceTail, "\n"), res.Violations)
+				}
 				if r.node != nil {
 					r.node.cleanup()
 				}
@@ -1731,6 +1754,13 @@ func (r *runner) capStep() {
 	layers := t.Draw(3)
 	var err error
 	gen := r.async && r.generating()
+	// A fork whose lower layers were flattened by an earlier Cap on a sibling is dead:
+	// Cap asserts on it ("parent diff layer is stale"). Not a legal call, not made.
+	if r.node.tree.VerifLinksToStale(root) {
+		r.step("Cap(%x,%d) skipped: dead fork", root[:6], layers)
+		r.res.Probe("snapshot-dead-fork")
+		return
+	}
 	if !r.call("snapshot Cap", func() { err = r.node.tree.Cap(root, layers) }) {
 		return
 	}
